@@ -554,21 +554,21 @@ Proof.
   exact (HL H p Hp).
 Qed.
 
-Lemma solve_v_ms m : ms (fst (solve_v orc c m)) = ms m.
+Lemma solve_v_ms T P m : ms (fst (solve_v orc c T P m)) = ms m.
 Proof. reflexivity. Qed.
 
-Lemma evals_v_ms pts : forall m vl, ms (fst (evals_v orc c pts m vl)) = ms m.
+Lemma evals_v_ms isT a pts : forall m vl, ms (fst (evals_v orc c isT a pts m vl)) = ms m.
 Proof.
   induction pts as [|x t IH]; intros m vl; simpl; auto.
-  rewrite IH. reflexivity.
+  destruct isT; unfold solve_v; cbn [fst snd]; rewrite IH; reflexivity.
 Qed.
 
 (* every vector a bracketing loop leaves in self._v is a clipped one *)
 Definition clipped (v : vec) : Prop := exists raw, v = clipv raw (molv c).
-Lemma evals_v_clipped pts : forall m vl, clipped vl -> clipped (snd (evals_v orc c pts m vl)).
+Lemma evals_v_clipped isT a pts : forall m vl, clipped vl -> clipped (snd (evals_v orc c isT a pts m vl)).
 Proof.
   induction pts as [|x t IH]; intros m vl Hc; simpl; auto.
-  apply IH. eexists; reflexivity.
+  destruct isT; unfold solve_v; cbn [fst snd]; apply IH; eexists; reflexivity.
 Qed.
 
 Lemma reach_set_flows_clipped s v : clipped v -> R s -> R (set_flows c v s).
@@ -614,27 +614,28 @@ Proof.
 Qed.
 
 Definition comps_nn : Prop :=
-  forall k p, 0 <= nthq (snd (o_bubble orc k)) p /\ 0 <= nthq (snd (o_dew orc k)) p.
+  forall k a p, 0 <= nthq (snd (o_bubble orc k a)) p /\ 0 <= nthq (snd (o_dew orc k a)) p.
 
 Lemma set_XV_multi_reach isT V m :
   (hyp -> 0 <= V <= 1) -> (hyp -> comps_nn) -> (hyp -> 0 <= Fmol c) ->
   R (ms m) -> R (ms (om (set_XV_multi orc c isT V m))).
 Proof.
-  intros HV HC HF R0. unfold set_XV_multi, call_dew, call_bubble, set_other. red1.
+  intros HV HC HF R0. unfold set_XV_multi, call_dew, call_bubble, set_other.
   assert (HV' : hyp -> 0 <= adj_V c V <= 1) by (intros H; apply adj_V_01; auto).
-  destruct (o_bubble orc (mk m)) as [Xb yb] eqn:EB0.
-  repeat brk; red1; rauto.
-  all: try (destruct (o_dew orc (mk m)) as [Xd0 xd0]; red1; rauto; fail).
-  all: try (destruct (o_bubble orc (mk m)) as [Xb0 yb0]; red1; rauto; fail).
-  all: destruct (o_dew orc (S (mk m))) as [Xd xd] eqn:ED; red1.
+  destruct isT; cbv zeta; red1.
+  all: destruct (o_bubble orc (mk m) _) as [Xb yb] eqn:EB0.
+  all: repeat brk; red1; rauto.
+  all: try (destruct (o_dew orc (mk m) _) as [Xd0 xd0]; red1; rauto; fail).
+  all: try (destruct (o_bubble orc (mk m) _) as [Xb0 yb0]; red1; rauto; fail).
+  all: destruct (o_dew orc (S (mk m)) _) as [Xd xd] eqn:ED; red1.
   all: repeat brk; red1; rauto.
   all: unfold solve_v; red1.
   all: repeat brk; red1; rauto.
   all: try (destruct (o_iq orc _) as [pts X]; red1;
-            match goal with |- context [evals_v orc c pts ?m0 ?v0] =>
-              pose proof (evals_v_ms pts m0 v0) as E1;
-              pose proof (evals_v_clipped pts m0 v0) as E2;
-              destruct (evals_v orc c pts m0 v0) as [m' v'] eqn:EV end;
+            match goal with |- context [evals_v orc c ?b ?a0 pts ?m0 ?v0] =>
+              pose proof (evals_v_ms b a0 pts m0 v0) as E1;
+              pose proof (evals_v_clipped b a0 pts m0 v0) as E2;
+              destruct (evals_v orc c b a0 pts m0 v0) as [m' v'] eqn:EV end;
             cbn [fst snd] in E1, E2; red1; rewrite E1; red1;
             apply reach_set_flows_clipped; [apply E2; eexists; reflexivity|]; repeat brk; rauto; fail).
   (* bubble-side and dew-side boundary branches *)
@@ -642,9 +643,9 @@ Proof.
   all: intros H N M p Hp.
   all: specialize (HV' H); specialize (HC H); specialize (HF H); specialize (M p).
   all: first [ apply cap_bubble; auto; try lra; intros q0;
-               destruct (HC (mk m) q0) as (C1 & _); rewrite EB0 in C1; exact C1
+               match type of EB0 with o_bubble _ _ ?a0 = _ => destruct (HC (mk m) a0 q0) as (C1 & _) end; rewrite EB0 in C1; exact C1
              | apply cap_dew; auto; try lra; intros q0;
-               destruct (HC (S (mk m)) q0) as (_ & C1); rewrite ED in C1; exact C1 ].
+               match type of ED with o_dew _ _ ?a0 = _ => destruct (HC (S (mk m)) a0 q0) as (_ & C1) end; rewrite ED in C1; exact C1 ].
 Qed.
 
 Lemma herr_eval_reach T P m : R (ms m) -> R (ms (fst (herr_eval orc c T P m))).
@@ -855,8 +856,8 @@ Proof.
   - intros s1 c E. destruct (setup_ok cf _ s1 c W E) as (_ & WC & _). pose proof WC as (L & _).
     unfold set_TP. rewrite E. red1. unfold call_dew, call_bubble, solve_v.
     repeat brk; red1; rauto; try (apply tp_chemical_reach; rauto).
-    all: destruct (o_dew orc (mk m)) as [Pd xd]; red1; repeat brk; red1; rauto.
-    all: destruct (o_bubble orc (S (mk m))) as [Pb yb]; red1; repeat brk; red1; rauto.
+    all: destruct (o_dew orc (mk m) _) as [Pd xd]; red1; repeat brk; red1; rauto.
+    all: destruct (o_bubble orc (S (mk m)) _) as [Pb yb]; red1; repeat brk; red1; rauto.
   - intros s E. unfold set_TP. rewrite E. reflexivity.
   - intros e s E. unfold set_TP. rewrite E. reflexivity.
 Qed.
@@ -895,8 +896,8 @@ Proof.
   - intros s1 c E. destruct (setup_ok cf _ s1 c W E) as (_ & WC & _). pose proof WC as (L & _).
     unfold set_TH. rewrite E. red1. unfold call_dew, call_bubble, call_xH.
     repeat brk; red1; rauto; try (apply th_chemical_reach; rauto).
-    all: destruct (o_dew orc (mk m)) as [Pd xd]; red1; repeat brk; red1; rauto.
-    all: destruct (o_bubble orc _) as [Pb yb]; red1; repeat brk; red1; rauto.
+    all: destruct (o_dew orc (mk m) _) as [Pd xd]; red1; repeat brk; red1; rauto.
+    all: destruct (o_bubble orc _ _) as [Pb yb]; red1; repeat brk; red1; rauto.
     all: destruct (o_iq orc _) as [pts Px]; red1; rauto.
     all: apply evals_h_reach; red1; rauto.
   - intros s E. unfold set_TH. rewrite E. reflexivity.
@@ -910,8 +911,8 @@ Proof.
     pose proof WC as (L & ND & RG & W1 & _).
     unfold set_PH. rewrite E. red1. unfold call_dew, call_bubble, call_xH, call_solveT.
     repeat brk; red1; rauto; try (apply ph_chemical_reach; rauto).
-    all: destruct (o_bubble orc (mk m)) as [Tb yb]; red1; repeat brk; red1; rauto.
-    all: destruct (o_dew orc _) as [Td xd]; red1; repeat brk; red1; rauto.
+    all: destruct (o_bubble orc (mk m) _) as [Tb yb]; red1; repeat brk; red1; rauto.
+    all: destruct (o_dew orc _ _) as [Td xd]; red1; repeat brk; red1; rauto.
     all: repeat match goal with
          | |- context [herr_eval ?o ?c0 ?T ?P ?m0] =>
            let m' := fresh "m'" in let h := fresh "h" in let EV := fresh "EV" in
@@ -941,13 +942,13 @@ Ltac red1 := cbn [ms mset tick mk fst snd om].
 Ltac rauto := repeat first [ assumption | apply r_T | apply r_P | apply r_refl ].
 
 (* what the x / y specifications need for non-negativity: the lever-rule vapour flows lie in [0, mol] *)
-Definition xy_ok (bubble : bool) (comp : vec) (m : mach) : Prop :=
+Definition xy_ok (bubble : bool) (sv : Q) (comp : vec) (m : mach) : Prop :=
   forall s1 c, setup cf (ms m) = SOk s1 c ->
     let n := length (idx c) in
-    if bubble then lever_ok c comp (fit n (snd (o_bubble orc (mk m))))
-    else lever_ok c (fit n (snd (o_dew orc (mk m)))) comp.
+    if bubble then lever_ok c comp (fit n (snd (o_bubble orc (mk m) sv)))
+    else lever_ok c (fit n (snd (o_dew orc (mk m) sv))) comp.
 
-Lemma set_xy_post bubble specT sv comp m : wf (ms m) -> (hyp -> xy_ok bubble comp m) ->
+Lemma set_xy_post bubble specT sv comp m : wf (ms m) -> (hyp -> xy_ok bubble sv comp m) ->
   post hyp cf (ms m) (set_xy cf orc bubble specT sv comp m).
 Proof.
   intros W HH. apply post_of_setup; auto.
@@ -956,11 +957,11 @@ Proof.
     destruct (negb (cN c =? 2)); red1; rauto.
     unfold call_bubble, call_dew.
     destruct bubble; red1.
-    + destruct (o_bubble orc (mk m)) as [a y] eqn:EB. red1.
+    + destruct (o_bubble orc (mk m) sv) as [a y] eqn:EB. red1.
       apply lever_reach; auto.
       * intros H. specialize (HH H s1 c E). cbn zeta in HH. rewrite EB in HH. exact HH.
       * red1. destruct specT; rauto.
-    + destruct (o_dew orc (mk m)) as [a y] eqn:EB. red1.
+    + destruct (o_dew orc (mk m) sv) as [a y] eqn:EB. red1.
       apply lever_reach; auto.
       * intros H. specialize (HH H s1 c E). cbn zeta in HH. rewrite EB in HH. exact HH.
       * red1. destruct specT; rauto.
@@ -972,8 +973,8 @@ Qed.
 Definition vle_hyp (sp : spec) (s : vst) : Prop :=
   match sp with
   | SpTV _ V | SpPV _ V => 0 <= V <= 1 /\ comps_nn orc /\ nsol_nn cf
-  | SpTx _ x | SpPx _ x => xy_ok true x (mkm s 0)
-  | SpTy _ y | SpPy _ y => xy_ok false y (mkm s 0)
+  | SpTx a x | SpPx a x => xy_ok true a x (mkm s 0)
+  | SpTy a y | SpPy a y => xy_ok false a y (mkm s 0)
   | _ => True
   end.
 
